@@ -159,7 +159,7 @@ func runCase(c Case) *hx.Failure {
 	erp := interpreter.NewECALRuntimeProvider("c12", nil, util.NewNullLogger())
 	// No cron triggers are used. The cron thread is stopped at once and not at the end of
 	// the case: Cron.Stop (krotik/common) deadlocks when it coincides with the one second tick.
-	erp.Cron.Stop()
+	go erp.Cron.Stop() // detached: never wait for it
 	proc := engine.NewProcessor(workers)
 	proc.SetFailOnFirstErrorInTriggerSequence(true)
 	proc.ThreadPool().TooManyThreshold = math.MaxInt32 // keeps the "queue is filling up" warning off stderr
